@@ -381,7 +381,41 @@ def gen_cases(rng, tier):
             add(fin({'op': 'qrot', 'a': angle(rng, sa), 'b': pole, 'mode': 'q'}))
             zp = structure_vectors(rng, opd(rng, 'Vector3', sb, [3], (), 'int'), 'zero')
             add(fin({'op': 'qrot', 'a': angle(rng, sa), 'b': zp, 'mode': 'q', 'edge': True}))
+    # ---------------------------------------------------------------- operand dtype kinds (int, float, bool), both orders
+    # A copy of every out-of-place bilinear case with the dtype kind of each operand drawn independently: an operand is
+    # re-drawn with integer (or 0/1) values and built as an int64 (bool) array, the other one keeps its dyadic float
+    # values, so int x float, float x int, int x int and bool mixtures all occur and the rational reference stays exact.
+    extra = []
+    for c in cases:
+        if c['op'] not in DTYPE_OPS or c.get('via') == 'imatmul' or c.get('reject') or rng.random() < 0.5:
+            continue
+        v = {k: x for k, x in c.items() if k not in ('req', 'id', 'kind', 'nontrivial')}
+        kinds = []
+        for key in ('a', 'b'):
+            o = v.get(key)
+            if not isinstance(o, dict):
+                continue
+            kind = rng.choice(['int', 'int', 'float', 'bool'])
+            if kind == 'int':
+                o = dict(o, vals=[float(rng.randint(-3, 3)) for _ in o['vals']], dtype='int')
+            elif kind == 'bool':
+                o = dict(o, vals=[float(rng.randint(0, 1)) for _ in o['vals']], dtype='bool')
+            else:
+                o = dict(o, vals=[rng.randint(-16, 16) / 8.0 for _ in o['vals']])     # genuinely fractional partner
+            if kind != 'float' and o['cls'] == 'Vector3':
+                o = dict(o, cls='Vector')      # Vector3 converts integers to float on construction; the generic Vector keeps them
+            v[key] = o
+            kinds.append(kind)
+        if all(k == 'float' for k in kinds):
+            continue
+        v['dtypes'] = kinds
+        v['edge'] = True
+        extra.append(fin(v, c['kind'] + '/dtype'))
+    cases += extra
     return cases
+
+
+DTYPE_OPS = ('dot', 'cross', 'outer', 'emul', 'normsq')
 
 
 def signed_perm(rng, shape):
